@@ -468,7 +468,10 @@ func c08Obs(c *podAssignCache, nodes []string) map[string]interface{} {
 			return c08VecOf(c.vectorizer, est)
 		}
 		node, prod, a0, a300 := get(false, 0, ""), get(true, 0, ""), get(false, 0, "p95"), get(false, 300, "p95")
-		out[n] = vu.Ev{"found": found, "node": node, "prod": prod, "a0": a0, "a300": a300}
+		// a second aggregation type, default period (= the longest period THAT type has data for: the reports carry avg
+		// for fewer periods than p95)
+		g0 := get(false, 0, "avg")
+		out[n] = vu.Ev{"found": found, "node": node, "prod": prod, "a0": a0, "a300": a300, "g0": g0}
 	}
 	return out
 }
